@@ -347,6 +347,7 @@ type pstore struct {
 	st      content.Storage
 	desc    ocispec.Descriptor
 	root    string // OCI layout root ("" = none)
+	path    string // file the named content is written to ("" = none)
 	cleanup func()
 }
 
@@ -398,7 +399,20 @@ func pushTargets() []ptarget {
 			if err != nil {
 				panic(err)
 			}
-			return pstore{st: st, desc: k.d.oci(named(k)), cleanup: func() { st.Close(); os.RemoveAll(dir) }}
+			return pstore{st: st, desc: k.d.oci(named(k)), path: filepath.Join(dir, fileName), cleanup: func() { st.Close(); os.RemoveAll(dir) }}
+		}},
+		{"file.Store(named, replacing a longer file)", false, 16, func(k *kase) pstore {
+			// the name's path already holds a longer file (an earlier version pulled into the same directory)
+			dir := Scratch("c05r")
+			st, err := file.New(dir)
+			if err != nil {
+				panic(err)
+			}
+			p := filepath.Join(dir, fileName)
+			if err := os.WriteFile(p, []byte("zzzzzzzzzzzzzzzz"), 0o644); err != nil {
+				panic(err)
+			}
+			return pstore{st: st, desc: k.d.oci(named(k)), path: p, cleanup: func() { st.Close(); os.RemoveAll(dir) }}
 		}},
 		{"file.Store(named, unpack)", false, 16, func(k *kase) pstore {
 			// a named directory layer: the bytes are kept as a temporary gzip file and unpacked; the
@@ -544,6 +558,12 @@ func runPush(c *driver.Ctx, p ptarget, k *kase) *fail {
 		}
 		if !v.exists || v.fetchErr != nil {
 			c.Count("note:accepted-but-not-visible:"+t, 1)
+		}
+		if ps.path != "" {
+			// the file under the content's name is the content, nothing more (read with the harness's own os call)
+			if b, rerr := os.ReadFile(ps.path); rerr != nil || !bytes.Equal(b, k.want()) {
+				return failf(t+": the file written for a successfully pushed named content does not hold exactly the named bytes", "file %q err %v want %q", clip(b), rerr, clip(k.want()))
+			}
 		}
 		if ps.root != "" {
 			if bad := misnamedBlob(added); bad != "" {
